@@ -347,7 +347,9 @@ func cpIncr(bz []byte) (ret []byte) {
 	for i := len(bz) - 1; i >= 0; i-- {
 		if ret[i] < byte(0xFF) {
 			ret[i]++
-			return
+			// drop the trailing bytes that wrapped around to 0x00: e.g. the smallest bound above every key
+			// with prefix "p\xff" is "q"; "q\x00" would let the key "q" itself into the range
+			return ret[:i+1]
 		}
 		ret[i] = byte(0x00)
 		if i == 0 {
